@@ -5,11 +5,15 @@
    "trie" engine compares the model's node structure with the real trie's (dumped through a
    verif shim) after every write and reopen, its gets, and its roots (recomputed through the
    encodings the trie database holds), and runs the reference go-ethereum trie alongside.
-   Proved so far: the shape invariant of the code is preserved by insertion (full statement of
-   canonicity - equal content gives equal tree - in DESIGN.md, C11; delete and lookup lemmas are
-   being added: partial). *)
+   Proved: insertion and deletion keep the shape invariant of the code and change exactly the
+   binding of their key; any history of updates and deletions answers like the map it describes;
+   well-formed tries with equal content are equal (canonical form); hence the tree and the root
+   are a function of the content alone, for every hash function.  The state database above the
+   trie is modelled in Model/StateDB.v (journal versus snapshot copies).  Not modelled (partial):
+   the storage caches and the node database (commit / reopen is exercised by the engines only),
+   contract code, Merkle proofs (engine only). *)
 From Coq Require Import List NArith ZArith Lia Bool.
-From AnnVerif Require Import Base.Bytes Model.Rlp Model.Trie Proofs.TrieProofs.
+From AnnVerif Require Import Base.Bytes Model.Rlp Model.Trie Proofs.TrieProofs Model.StateDB Proofs.StateProofs.
 Import ListNotations.
 Open Scope N_scope.
 
@@ -22,6 +26,102 @@ Theorem c11_insert_keeps_wellformed :
 Proof. exact insert_wf. Qed.
 Print Assumptions c11_insert_keeps_wellformed.
 
+(* (2) insertion changes exactly the binding of its key: afterwards the key yields the new value
+   and every other key yields what it yielded before - for every well-formed trie and all keys *)
+Theorem c11_insert_changes_exactly_its_key :
+  forall n, wf n -> forall k v q, vkey k -> v <> [] -> vkey q ->
+  lookup (insert n k (NVal v)) q = if list_eq_dec N.eq_dec q k then Some v else lookup n q.
+Proof. exact lookup_insert. Qed.
+Print Assumptions c11_insert_changes_exactly_its_key.
+
+(* (3) the same on byte strings, as Trie.Update / Trie.Get take them (empty trie included) *)
+Theorem c11_get_after_update :
+  forall n k v q, wfr n -> Forall is_byte k -> Forall is_byte q -> v <> [] ->
+  get (update n k v) q = if list_eq_dec N.eq_dec q k then Some v else get n q.
+Proof. exact get_update. Qed.
+Print Assumptions c11_get_after_update.
+
+(* (4) any history of insertions: the trie is well-formed and answers every key like the
+   association list of the history (latest binding wins) - content, not history, decides every get *)
+Theorem c11_inserts_answer_like_the_map :
+  forall l q, Forall (fun kv => vkey (fst kv) /\ snd kv <> []) l -> vkey q ->
+  wfr (insert_all l) /\ lookup (insert_all l) q = alist_get l q.
+Proof. exact lookup_insert_all. Qed.
+Print Assumptions c11_inserts_answer_like_the_map.
+
+(* (5) canonical form: two well-formed tries (or empty ones) that answer every key alike are the
+   same tree - the tree, and with it the root under any hash function, is a function of the content *)
+Theorem c11_equal_content_equal_tree :
+  forall n1 n2, wfr n1 -> wfr n2 -> (forall q, vkey q -> lookup n1 q = lookup n2 q) -> n1 = n2.
+Proof. exact canonical_root. Qed.
+Print Assumptions c11_equal_content_equal_tree.
+
+(* (6) history independence for insertions: histories that bind the same keys to the same values
+   build the same tree and the same root, whatever the order and whatever was overwritten *)
+Theorem c11_insert_history_independent :
+  forall l1 l2,
+  Forall (fun kv => vkey (fst kv) /\ snd kv <> []) l1 ->
+  Forall (fun kv => vkey (fst kv) /\ snd kv <> []) l2 ->
+  (forall q, vkey q -> alist_get l1 q = alist_get l2 q) ->
+  insert_all l1 = insert_all l2 /\ forall H, root_hash H (insert_all l1) = root_hash H (insert_all l2).
+Proof. exact insert_history_independent. Qed.
+Print Assumptions c11_insert_history_independent.
+
+(* (7) deletion keeps the shape invariant (merging nodes as the code does) and removes exactly its
+   key *)
+Theorem c11_delete_removes_exactly_its_key :
+  forall n, wf n -> forall k, vkey k ->
+  wfr (delete n k) /\
+  forall q, vkey q -> lookup (delete n k) q = if list_eq_dec N.eq_dec q k then None else lookup n q.
+Proof. exact delete_spec. Qed.
+Print Assumptions c11_delete_removes_exactly_its_key.
+
+(* (8) any history of updates and deletions (an empty value deletes, as in Trie.TryUpdate): the
+   trie is well-formed and answers every key like the map the history describes *)
+Theorem c11_history_answers_like_the_map :
+  forall ops q, Forall (fun kv => vkey (fst kv)) ops -> vkey q ->
+  wfr (run_ops ops) /\ lookup (run_ops ops) q = map_get ops q.
+Proof. exact run_ops_spec. Qed.
+Print Assumptions c11_history_answers_like_the_map.
+
+(* (9) the root is a function of the content alone: any two histories of inserts, updates and
+   deletes that end in the same content give the same tree and the same root, whatever the hash *)
+Theorem c11_root_is_a_function_of_content :
+  forall ops1 ops2,
+  Forall (fun kv => vkey (fst kv)) ops1 -> Forall (fun kv => vkey (fst kv)) ops2 ->
+  (forall q, vkey q -> map_get ops1 q = map_get ops2 q) ->
+  run_ops ops1 = run_ops ops2 /\ forall H, root_hash H (run_ops ops1) = root_hash H (run_ops ops2).
+Proof. exact history_independent. Qed.
+Print Assumptions c11_root_is_a_function_of_content.
+
+(* ---- the state database above the trie (Model/StateDB.v) ---- *)
+
+(* (10) the journal of undo entries the code keeps and the specification in which a snapshot is a
+   copy of the whole state are in simulation on every sequence of operations (writes with
+   get-or-create, CreateAccount, Suicide, nested Snapshot / RevertToSnapshot, Finalise): same
+   accounts as far as any reader can tell, same dirty set, same valid snapshots *)
+Theorem c11_journal_refines_copy : forall ops, R (c_run ops) (j_run ops).
+Proof. exact journal_refines_copy. Qed.
+Print Assumptions c11_journal_refines_copy.
+
+(* (11) so every read (existence, nonce, balance, every storage slot) is the same under both *)
+Theorem c11_reads_agree :
+  forall ops a k,
+  exists_ (j_w (j_run ops)) a = exists_ (c_w (c_run ops)) a /\
+  nonce_ (j_w (j_run ops)) a = nonce_ (c_w (c_run ops)) a /\
+  bal_ (j_w (j_run ops)) a = bal_ (c_w (c_run ops)) a /\
+  state_ (j_w (j_run ops)) a k = state_ (c_w (c_run ops)) a k.
+Proof. exact journal_reads_like_copy. Qed.
+Print Assumptions c11_reads_agree.
+
+(* (12) and in the specification reverting to a valid snapshot restores exactly the state (and the
+   dirty set) at the snapshot *)
+Theorem c11_revert_restores_snapshot :
+  forall s id w d, find_snap (c_snaps s) id = Some (w, d) ->
+  c_w (c_step s (ORevert id)) = w /\ c_dirty (c_step s (ORevert id)) = d.
+Proof. exact copy_revert_restores. Qed.
+Print Assumptions c11_revert_restores_snapshot.
+
 (* ---- non-vacuity: three keys sharing prefixes, one being a prefix of another ---- *)
 Definition ex_t1 : node := update (update (update NNil [171; 16] [1]) [171] [2; 2]) [171; 16; 1] [3].
 Example c11_nonvacuous :
@@ -30,3 +130,11 @@ Example c11_nonvacuous :
   update (update ex_t1 [171] []) [171] [2; 2] = ex_t1 /\
   update (update (update NNil [171; 16; 1] [3]) [171] [2; 2]) [171; 16] [1] = ex_t1.
 Proof. vm_compute. repeat split. Qed.
+
+Example c11_statedb_nonvacuous :
+  let ops := [OSetNonce 1 5; OSetState 1 0 7; OSnap; OSetState 1 0 0; OSuicide 1; OSnap; OCreate 1; OSetState 2 1 9;
+              ORevert 1%nat; ORevert 0%nat] in
+  let w := j_w (j_run ops) in
+  (exists_ w 1, nonce_ w 1, state_ w 1 0, exists_ w 2) = (true, 5, 7, false) /\
+  j_journal (j_run ops) = [JStore 1 0 0; JNonce 1 0; JObject 1 None].
+Proof. vm_compute. split; reflexivity. Qed.
